@@ -9,13 +9,14 @@
 tier=${1:-quick}
 N=${2:-4}
 T=${SEEDPAR_THREADS:-$(( 16 / N ))}; [ $T -lt 1 ] && T=1
-base=/tmp/seedpar
+base=${SEEDPAR_BASE:-/tmp/seedpar}
+src=${SEEDPAR_SRC:-/verif/seeded}   # SEEDPAR_SRC=/verif/benign runs the property-preserving changes (expected exit 0)
 out=${SEEDPAR_OUT:-/verif/seeded/RESULTS.md}   # SEEDPAR_ONLY="C09-m6 C20-m2" restricts the run to those changes
 head=$(git -C /repo rev-parse HEAD)
 rm -rf $base; mkdir -p $base
 : > $base/results.txt
 # job list: "<id> <patch> <check>"
-for d in /verif/seeded/C*-m*; do
+for d in $src/C*-[mb]*; do
   id=$(basename $d); prop=${id%%-*}
   [ -n "${SEEDPAR_ONLY:-}" ] && ! echo " $SEEDPAR_ONLY " | grep -q " $id " && continue
   p=$d/patch.diff; [ -f $d/patch.ported.diff ] && p=$d/patch.ported.diff
@@ -61,16 +62,21 @@ for w in $(seq 0 $((N-1))); do worker $w & done
 wait
 git -C /repo worktree prune
 {
-echo "# Seeded property-breaking changes vs. the checks"
+echo "# ${SEEDPAR_TITLE:-Seeded property-breaking changes vs. the checks}"
 echo
 echo "Produced by tools/seedall-par.sh ($tier tier, $N scratch workers with $T threads each) on $(date -u +%Y-%m-%dT%H:%MZ), against /repo commit ${head:0:7}."
+if [ "$src" = /verif/seeded ]; then
 echo "Each change was written by an independent sub-agent from the property text alone, passes the repository's"
 echo "suite, and comes with a demonstration (demo.rs) that fails with it and passes without it."
+else
+echo "Each change was written by an independent sub-agent from the property text alone, passes the repository's"
+echo "suite, and is argued (notes.md) to leave the property intact: the expected exit code is 0."
+fi
 echo
 echo "| change | check run | exit | first reported clause |"
 echo "|---|---|---|---|"
 sort -t'|' -k1,1V -k2,2 $base/results.txt | while IFS='|' read id c rc clause; do
-  note=""; [ -f /verif/seeded/$id/UNDETECTED.md ] && [ "$rc" = "0" ] && note=" — $(head -1 /verif/seeded/$id/UNDETECTED.md)"
+  note=""; [ -f $src/$id/UNDETECTED.md ] && [ "$rc" = "0" ] && note=" — $(head -1 $src/$id/UNDETECTED.md)"
   echo "| $id | $c $tier | $rc | $clause$note |"
 done
 echo
